@@ -27,7 +27,7 @@ impl C14 {
     /// flags as the monitor knows them vs as the contracts report them
     fn cross_check(&self, s: &Snap, r: &mut Report, seq: usize, after: &str) {
         let mut bad: Vec<String> = vec![];
-        if s.eng.paused != self.paused {
+        if s.eng.paused_reported && s.eng.paused != self.paused {
             bad.push(format!("engine pause flag is {} but accepted SetPause calls say {}", s.eng.paused, self.paused));
         }
         for (i, v) in s.vamms.iter().enumerate() {
